@@ -204,6 +204,31 @@ def world_plans(draw, tier):
                 proto['slot'] = len(setup)
                 setup = [sib if m is proto else m for m in setup] + [proto]
                 setup.sort(key=lambda m: m['slot'])
+    if draw(st.integers(0, 3)) == 0:
+        # two load functions with the very same supporting classes (same order) and different
+        # result types, neither result class among the supporting ones: a base-typed document
+        # type next to load_function(Derived, Base, ...)
+        cand = []
+        for sp in specs:
+            for c in sp['classes']:
+                if c['kind'] == 'regular' and c.get('base') and c.get('registered', True) \
+                        and U.class_by_name(sp, c['base']).get('registered', True) \
+                        and not any(o.get('base') == c['name'] for o in sp['classes']):
+                    cand.append((sp, c))
+        if cand:
+            sp, d = draw(st.sampled_from(cand))
+            support = sorted(c['name'] for c in sp['classes'] if c['name'] != d['name'])
+            order = list(draw(st.permutations([c['name'] for c in sp['classes']])))
+            ra = draw(st.sampled_from([['list', ['cls', d['base']]], ['dict', ['cls', d['base']]],
+                                       ['cls', d['base']], ['opt', ['cls', d['base']]]]))
+            pair = [{'op': 'mk', 'slot': len(setup), 'kind': 'load', 'spec': sp['uid'], 'order': order,
+                     'only': support, 'root': ra},
+                    {'op': 'mk', 'slot': len(setup) + 1, 'kind': 'load', 'spec': sp['uid'], 'order': order,
+                     'only': support, 'root': ['cls', d['name']]}]
+            if draw(st.booleans()):
+                pair.reverse()
+                pair[0]['slot'], pair[1]['slot'] = pair[1]['slot'], pair[0]['slot']
+            setup.extend(pair)
     shared = {}
     for j in range(draw(st.integers(0, 2))):
         dmk = [m for m in setup if m['op'] == 'mk' and m['kind'] != 'load']
